@@ -18,6 +18,24 @@ def funnel_shared_job(tag, n_quick=2500, n_thorough=60000):
             "why": "the Lean-defined property monitor fails, for one of the sources, on the event log of 2-3 real funnel.Workers "
                    "(one per source, own DLQ) running concurrently into one shared sink (funnel.NewSink shared boundary)"}
 
+def funnel_sharedsink_job(tag, n_quick=2500, n_thorough=60000):
+    return {"harness": "h_funnel", "comp": "funnelshared", "driver": "sharedsink", "n_quick": n_quick, "n_thorough": n_thorough,
+            "fail_tag": tag,
+            "why": "the recorded global trace of 2-3 real funnel.Workers running concurrently into one shared sink (shared processor calls "
+                   "SP, destination writes SW and ack-stream reads SK attributed to their source, with the root's lock / poison latch probed "
+                   "at each call, Worker.Do results SZ) is not a run of the shared-sink model Model/SharedSink.lean (reject@k: e.g. a write or "
+                   "ack read inside a root another worker's failed sub-pass poisoned, an ack read beyond what the holder wrote, a worker inside a "
+                   "root whose lock another worker holds), or a probe / the observational serializability monitor fails (lock not held, event "
+                   "inside a poisoned root, a worker touching a root while another worker's acks are outstanding)"}
+
+SHAREDSINK_MODULES = ["ConduitModel.Props.SharedSink", "ConduitModel.Facts.SharedSink"]
+SHAREDSINK_STRENGTH = ("; shared sink (C01/C04/C05_v2_shared_*): for every event list of the W-workers x R-roots model (every interleaving of "
+                       "doTask's sharedBoundary statements with the writes / ack reads of the sub-passes): mutual exclusion per root, root logs "
+                       "serial (complete single-worker single-hand-off sub-passes), every consumed ack produced by the reader's own write in the "
+                       "same sub-pass, poison latch without window, per-root per-source hand-off order, no lock deadlock; acks to the own source "
+                       "and context cancellation not modelled")
+SHAREDSINK_ASSUME = ["shared sink: a destination queues one ack per record it accepted on ONE FIFO ack stream; a running sub-pass eventually returns"]
+
 def arbiter_job(n_quick=20000, n_thorough=600000):
     return {"harness": "h_pure", "comp": "arbiter", "n_quick": n_quick, "n_thorough": n_thorough,
             "why": "parent calls / verdicts of the real multiAckNacker or runAckNacker+splitRun differ from the pure arbiter functions "
